@@ -20,6 +20,9 @@ CLAUSE = CLAUSE + (" flush_prog_info clears the second-occurrence bookkeeping of
                    "program info's own slot number, as xds_decoder indexes it by _class); vbi_xds_demux_feed_frame feeds only "
                    "lines whose service id is exactly CAPTION_525 or CAPTION_525_F2 (an exact-value dispatch, not a mask that also "
                    "admits the field 1 id).")
+CLAUSE = CLAUSE + (" Outside the assembler, abandoning the sub-packet in progress (curr_sp := NULL on a decoder desync) comes after "
+                   "its count was cleared; after every flush_prog_info() in xds_decoder the datum of the packet that caused the flush "
+                   "is stored into the programme record again on every path.")
 NOT_DECIDED = ("exactly-once delivery under interleaving, equality of the delivered bytes with the sent ones, content decoding "
                "into vbi_program_info (values).")
 
@@ -184,6 +187,8 @@ def run(ctx, run):
     _parity_discipline(ctx, run)
     _info_cycle_slot(ctx, run)
     _field2_ids(ctx, run)
+    _desync_discards_current(ctx, run)
+    _flush_then_restore(ctx, run)
 
 
 def _canon(f, node):
@@ -602,3 +607,89 @@ def _field2_ids(ctx, run):
                           "into the XDS stream, whose packets are then cut short or fail their checksum"
                           % (sorted(hex(v) for v in vals) if vals else "no value dispatch"), ex.loc(f, i))
     run.floor("vbi_xds_demux_feed call sites in the frame function", n, 1)
+
+
+def _desync_discards_current(ctx, run):
+    """RF-CORR: outside the assembler (where a header pair merely switches the current
+    sub-packet - interleaving by design) every store curr_sp := NULL abandons the packet in
+    progress because data was lost; its collected bytes must be dropped with it (count := 0 or
+    the whole sub-packet cleared), or a later continue code appends to the stale part and a
+    packet that was never sent in that form can be delivered."""
+    P = ctx.prog
+    n = 0
+    for f in P.funcs:
+        if f.file != "src/caption.c" or f.name == "xds_separator":
+            continue
+        for bid, i in flow.all_events(f):
+            for lhs, var, op, rhs in flow.stores(f, i):
+                if lhs is None or op != "=" or not ex.is_null(f, rhs):
+                    continue
+                l = f.exprs[ex.skip(f, lhs)]
+                if l["k"] != "mem" or l["member"] != "curr_sp" or l.get("in") != "caption":
+                    continue
+                n += 1
+                run.touch(f)
+                resets = []
+                for b2, j in flow.all_events(f):
+                    e = f.exprs[j]
+                    if e["k"] == "call" and e.get("callee") in ("memset", "__builtin_memset") and e.get("c") \
+                            and ex.pretty(f, e["c"][0]).endswith("curr_sp"):
+                        resets.append((b2, j))
+                    for l2, v2, o2, r2 in flow.stores(f, j):
+                        if l2 is not None and o2 == "=" and ex.const(f, r2) == 0:
+                            le = f.exprs[ex.skip(f, l2)]
+                            if le["k"] == "mem" and le["member"] == "count" and le.get("in") == "xds_sub_packet":
+                                resets.append((b2, j))
+                pos = flow.elem_pos(f)
+                ok = any((b2 == bid and pos[j][1] < pos[i][1]) or (b2 != bid and flow.dominates(f, b2, bid)) for b2, j in resets)
+                key = "RF-CORR:%s:abandon-resets-count" % f.name
+                if ok:
+                    run.holds("RF-CORR", key, "`%s` comes after the interrupted sub-packet was cleared" % ex.pretty(f, i), ex.loc(f, i))
+                else:
+                    run.violation("RF-CORR", key, "%s() abandons the XDS packet in progress (`%s`) but leaves its count and bytes: after "
+                                  "the gap a continue code for that class/type appends to the stale part, and a packet that was never "
+                                  "sent in that form is decoded" % (f.name, ex.pretty(f, i)), ex.loc(f, i))
+    run.floor("curr_sp := NULL outside the assembler (desync)", n, 1)
+
+
+def _flush_then_restore(ctx, run):
+    """RF-DEP: flush_prog_info() wipes the whole programme record; the packet that triggered it
+    (new PIN, repeated title) describes the *new* programme, so its content is stored again
+    after the flush on every path - otherwise the announced record lacks the very field that was
+    just received."""
+    P = ctx.prog
+    f = P.need("xds_decoder", "src/caption.c")
+    run.touch(f)
+
+    def restore(ff, ii):
+        e = ff.exprs[ii]
+        if e["k"] == "call" and e.get("callee") == "xds_strfu" and e.get("c"):
+            a = ff.exprs[ex.skip(ff, e["c"][0])]
+            while a["k"] in ("cast", "idx") or (a["k"] == "un" and a["op"] == "&"):
+                a = ff.exprs[ex.skip(ff, a["c"][0])]
+            return a["k"] == "mem" and a.get("in") == "vbi_program_info"
+        for lhs, var, op, rhs in flow.stores(ff, ii):
+            if lhs is None or op != "=":
+                continue
+            l = ff.exprs[ex.skip(ff, lhs)]
+            while l["k"] == "idx":
+                l = ff.exprs[ex.skip(ff, l["c"][0])]
+            if l["k"] == "mem" and l.get("in") == "vbi_program_info":
+                return True
+        return False
+    n = 0
+    for bid, i in flow.all_events(f):
+        e = f.exprs[i]
+        if e["k"] != "call" or e.get("callee") != "flush_prog_info":
+            continue
+        n += 1
+        ok, _ = atoms.must_pass(f, i, restore)
+        key = "RF-DEP:xds_decoder:flush-then-restore@%d" % n
+        if ok:
+            run.holds("RF-DEP", key, "after `%s` every path stores the received datum into the programme record again"
+                      % ex.pretty(f, i)[:50], ex.loc(f, i))
+        else:
+            run.violation("RF-DEP", key, "`%s` wipes the programme record and a path returns without storing the datum of the packet "
+                          "that caused the flush: the record announced next lacks the field just received (empty title)"
+                          % ex.pretty(f, i)[:50], ex.loc(f, i))
+    run.floor("flush_prog_info calls in xds_decoder", n, 2)
